@@ -339,5 +339,36 @@ example : (Wf.composite [.const 2 3, .ramp 3 0 1]).integral? = some ((3 : Rat) /
     ((Wf.composite [.const 2 3, .ramp 3 0 1]).scale (-2)).integral? = some (-(3 : Rat) / 200) := by
   decide +kernel
 
+/-- **Integral of a composite of any number of parts**: defined iff every part's integral is,
+and then their sum. -/
+theorem integral_composite (ws : List Wf) :
+    (Wf.composite ws).integral? = (ws.mapM Wf.integral?).map List.sum := by
+  unfold Wf.integral?
+  simp only [Wf.samples?]
+  induction ws with
+  | nil => simp [samplesList?]
+  | cons w ws ih =>
+    simp only [samplesList?, List.mapM_cons]
+    cases hw : w.samples? with
+    | none => simp
+    | some a =>
+      cases hs : samplesList? ws with
+      | none =>
+        rw [hs] at ih
+        simp only [Option.map_none] at ih
+        cases hm : List.mapM (fun w => Option.map (fun s => s.sum / 1000) w.samples?) ws with
+        | none => simp
+        | some l => rw [hm] at ih; simp at ih
+      | some b =>
+        rw [hs] at ih
+        simp only [Option.map_some] at ih
+        cases hm : List.mapM (fun w => Option.map (fun s => s.sum / 1000) w.samples?) ws with
+        | none => rw [hm] at ih; simp at ih
+        | some l =>
+          rw [hm] at ih
+          simp only [Option.map_some, Option.some.injEq] at ih
+          show some ((a ++ b).sum / 1000) = some ((a.sum / 1000 :: l).sum)
+          rw [List.sum_append, List.sum_cons, ← ih]; congr 1; ring
+
 end C16
 end Pulser
